@@ -458,6 +458,20 @@ var ruleParams = &core.Rule{ID: "R02.2", Min: 5,
 					if call, ok := v.(*ssa.Call); ok && core.CalleeIs(&call.Call, "mime", "FormatMediaType") {
 						base, fld, isLoad := core.LoadOfField(call.Call.Args[0])
 						s.Check(isLoad && fld == m.tm.FMime && base == ssa.Value(g.Params[0]) && call.Call.Args[1] == ssa.Value(g.Params[1]), key, c.Pos(call.Pos()), "mime.FormatMediaType(registered type, ps)", "FormatMediaType is not applied to (registered type of the node, the parameter map)")
+						// only when there are parameters: without them the registered string must be copied verbatim
+						// (FormatMediaType lower-cases and re-validates; names of extensions are arbitrary strings)
+						guarded := false
+						for _, de := range core.DominatingConds(call.Block()) {
+							cond, val := core.StripNot(de.Cond, de.Val)
+							if bo, ok := cond.(*ssa.BinOp); ok {
+								if ln, ok := bo.X.(*ssa.Call); ok && core.IsBuiltin(&ln.Call, "len") && ln.Call.Args[0] == ssa.Value(g.Params[1]) && core.IsConstInt(bo.Y, 0) {
+									if (bo.Op == token.GTR && val) || (bo.Op == token.NEQ && val) || (bo.Op == token.EQL && !val) || (bo.Op == token.LEQ && !val) {
+										guarded = true
+									}
+								}
+							}
+						}
+						s.Check(guarded, key+": only when parameters exist", c.Pos(call.Pos()), "under len(ps) > 0", "the type string is re-formatted even when there is no parameter to attach: a format registered by Extend under a non-canonical spelling (upper case, embedded parameter) would be reported, and looked up, under a different name")
 						continue
 					}
 					s.Bad(key, c.Pos(x.Pos()), fmt.Sprintf("the type string of a result is built from %s: a sniffed charset label (attacker text) must reach it only through mime.FormatMediaType, which quotes or encodes unsafe values", v))
